@@ -32,18 +32,26 @@ async def debounced_sorted_prefix(
 
     buffer: list[T] = []
     debouncer = Debouncer(debounce_seconds, max_window_seconds)
-    merged = merge_generators(inner, debouncer.aiter())
+    # The debouncer's marker is told apart from input items by identity: an
+    # input item that merely equals the marker's text is an item like any other.
+    window_closed = object()
+
+    async def window_marker() -> AsyncGenerator[Any, None]:
+        async for _ in debouncer.aiter():
+            yield window_closed
+
+    merged = merge_generators(inner, window_marker())
 
     flushed = False
     async for item in merged:
-        if item == "__COMPLETE__":
+        if item is window_closed:
             buffer.sort(key=key)
             for buffered_item in buffer:
                 yield buffered_item
             buffer = []
             flushed = True
         else:
-            # item is T after checking != "__COMPLETE__"
+            # item is T: the only other source of the merge is `inner`
             actual_item = cast(T, item)
             # Pass through only once the burst has actually been flushed: the
             # debouncer may already be complete while its "__COMPLETE__" marker
